@@ -153,6 +153,55 @@ def drv_rows(c, ctx, col):
     col.sample(detail)
 
 
+PART_FORMULAS = ["b ~ A + a | A + center(a)", "A ~ 0 + A + a", "b ~ a:A | C(A, contr.sum) | A", "A + a ~ 0 + A | scale(a) + A"]
+
+
+def drv_parts(c, ctx, col):
+    """every part spec of a structured formula, used ON ITS OWN: it must replay row by row like any spec (parts share factors, which the
+    materializer encodes once per call)"""
+    from formulaic.utils.structured import Structured
+    formula = c.pick(PART_FORMULAS)
+    train_idx = c.pick(ctx["trainings"])
+    output = c.pick(ctx["outputs"])
+    rows = domain_rows(train_idx, formula)
+    sel = c.seq(rows, ctx["L"], 1)
+    with warnings.catch_warnings():
+        warnings.simplefilter("ignore")
+        try:
+            tr, mm = fit(formula, train_idx, output)
+        except Exception as e:  # noqa
+            col.count("fit-raised:" + type(e).__name__)
+            raise Skip()
+        specs = list(mm.model_spec._flatten()) if isinstance(mm.model_spec, Structured) else [mm.model_spec]
+        mats = list(mm._flatten()) if isinstance(mm, Structured) else [mm]
+        part = c.choose(len(specs))
+        spec, orig = specs[part], mats[part]
+        key = "parts %r part=%d train=%s output=%s sel=%s" % (formula, part, list(train_idx), output, sel)
+        detail = {"formula": formula, "part": part, "part_terms": [str(t) for t in spec.formula], "training_rows": list(train_idx), "selection": sel, "output": output,
+                  "pool": POOL.to_dict("list")}
+        dom = POOL.iloc[rows].reset_index(drop=True)
+        try:
+            whole = pickle.loads(pickle.dumps(spec)).get_model_matrix(dom)
+            got = spec.get_model_matrix(POOL.iloc[sel].reset_index(drop=True))
+            again = spec.get_model_matrix(tr)
+        except Exception as e:  # noqa
+            col.violation(key, dict(detail, error="%s: %s" % (type(e).__name__, str(e)[:300])), sig="parts:apply-raised:" + type(e).__name__)
+            return
+    col.interesting()
+    W, G = dense(whole), dense(got)
+    want = W[[rows.index(i) for i in sel], :]
+    if list(got.model_spec.column_names) != list(spec.column_names):
+        col.violation(key, dict(detail, names=list(got.model_spec.column_names), fitted_names=list(spec.column_names)), sig="parts:column-names-changed")
+        return
+    if G.shape != want.shape or not np.allclose(G, want, rtol=1e-10, atol=1e-12, equal_nan=True):
+        col.violation(key, dict(detail, got=G.tolist(), want=want.tolist()), sig="parts:not-row-local")
+        return
+    if not np.allclose(dense(again), dense(orig), rtol=1e-10, atol=1e-12, equal_nan=True):
+        col.violation(key, dict(detail, original=dense(orig).tolist(), regenerated=dense(again).tolist()), sig="parts:training-matrix-not-reproduced")
+        return
+    col.sample(detail)
+
+
 EVENT_SELS = [[0], [1, 0], [0, 0], [2, 1, 0], [1], [1, 2, 2]]
 
 
@@ -232,6 +281,8 @@ def subchecks(tier, seed):
         Sub("row-locality-all-trainings", drv_rows, {"formulas": fs, "trainings": tr, "outputs": ["pandas", "sparse"], "L": 1},
             shard_depth=2, bounds={"formulas": len(fs), "training_sets": len(tr), "max_selection_length": 1, "outputs": ["pandas", "sparse"]}),
     ]) + [
+        Sub("part-specs-on-their-own", drv_parts, {"trainings": tr[:3] if quick else tr[:12], "outputs": ["pandas"] if quick else ["pandas", "sparse"], "L": 2},
+            shard_depth=2, bounds={"formulas": PART_FORMULAS, "parts": "every leaf spec of the structured result", "max_selection_length": 2}),
         Sub("row-locality-categorical-dtype", drv_rows, {"formulas": [f for f in fs if "A" in f], "trainings": tr[:1] if quick else tr[:12], "outputs": ["pandas"],
                                                          "L": 2, "adtypes": ["category-training-levels", "category-present-levels-only", "category-reversed-order"]},
             shard_depth=2, bounds={"formulas": "those using A", "followup_dtype_of_A": ["category (training levels)", "category (present levels only)", "category (reversed order)"],
